@@ -101,4 +101,25 @@ theorem C03_merge_nolocal_counterexample :
     (({ filter := [97, 47, 35], noLocal := true } : Sub).merge { filter := [97, 47, 98] }).noLocal = true ∧
     (({ filter := [97, 47, 98] } : Sub).merge { filter := [97, 47, 35], noLocal := true }).noLocal = true := by decide
 
+/-- F06d (fixed in `TopicsIndex.Unsubscribe`): a shared filter without a topic part (`$share`, `$share/group`)
+    names no subscription — `Unsubscribe` leaves the index alone and reports that nothing existed (before the fix it
+    sought the particle named like the group and deleted the member entry of `$share/<group>/<group>`) -/
+theorem C03_unsubscribe_share_without_topic_is_noop (x : Index) (filter client : Str)
+    (hs : isShare (isolate (splitLevels filter) 0).1 = true) (hn : (isolate (splitLevels filter) 1).2 = false) :
+    unsubscribe x filter client = (x, false) := by
+  unfold unsubscribe
+  simp only [hs, hn, Bool.not_false, Bool.and_self, if_true]
+
+/-- non-vacuity: client `x` holds `$share/g/g`; `Unsubscribe("$share/g", "x")` reports `false` and the index still
+    holds the entry (same particles, same member of group `g`) -/
+example :
+    let t := (subscribe {} [120] { filter := [36, 115, 104, 97, 114, 101, 47, 103, 47, 103] }).1
+    (unsubscribe t [36, 115, 104, 97, 114, 101, 47, 103] [120]).2 = false ∧
+    (unsubscribe t [36, 115, 104, 97, 114, 101, 47, 103] [120]).1.nodes = t.nodes ∧
+    (unsubscribe t [36, 115, 104, 97, 114, 101, 47, 103] [120]).1.retained = t.retained ∧
+    t.nodes.map (fun n => (n.path, n.shared.map (fun g => (g.1, g.2.map (·.1))))) = [([[103]], [([103], [[120]])])] ∧
+    -- the full filter does remove it
+    (unsubscribe t [36, 115, 104, 97, 114, 101, 47, 103, 47, 103] [120]).2 = true ∧
+    (unsubscribe t [36, 115, 104, 97, 114, 101, 47, 103, 47, 103] [120]).1.nodes = [] := by decide
+
 end Mochi.Broker
